@@ -117,10 +117,10 @@ theorem flatMap_select {β} (f : Nat → Data → List β) (k : Nat)
         simp [hle, this]
 
 theorem flatMap_indexed_select {β} (it : Item) (f : Nat → Data → List β) (k : Nat) (d : Data)
-    (hd : it.variants[k]? = some d) (hother : ∀ j d', j ≠ k → d' ∈ it.variants → f j d' = []) :
+    (hd : it.variants[k]? = some d) (hother : ∀ j d', j ≠ k → it.variants[j]? = some d' → f j d' = []) :
     it.indexed.flatMap (fun (j, d) => f j d) = f k d := by
-  -- restrict `f` to members so that the side condition is unconditional
-  have key : ∀ (vs : List Data) (k0 : Nat), (∀ j d', j ≠ k → d' ∈ vs → f j d' = []) →
+  -- the side condition only speaks about the variant that stands at position `j`
+  have key : ∀ (vs : List Data) (k0 : Nat), (∀ j d', j ≠ k → k0 ≤ j → vs[j - k0]? = some d' → f j d' = []) →
       ((vs.zipIdx k0).map fun (d, j) => (j, d)).flatMap (fun (j, d) => f j d) =
         match (if k0 ≤ k then vs[k - k0]? else none) with
         | some d => f k d
@@ -131,12 +131,14 @@ theorem flatMap_indexed_select {β} (it : Item) (f : Nat → Data → List β) (
     | cons d0 vs ih =>
       intro k0 h
       simp only [List.zipIdx_cons, List.map_cons, List.flatMap_cons]
-      rw [ih (k0 + 1) (fun j d' hj hm => h j d' hj (by simp [hm]))]
+      rw [ih (k0 + 1) (fun j d' hj hle hm => h j d' hj (by omega) (by
+        have e : j - k0 = (j - (k0 + 1)) + 1 := by omega
+        rw [e, List.getElem?_cons_succ]; exact hm))]
       by_cases hk : k0 = k
       · subst hk
         have : ¬ (k0 + 1 ≤ k0) := by omega
         simp [this]
-      · rw [h k0 d0 hk (by simp), List.nil_append]
+      · rw [h k0 d0 hk (Nat.le_refl _) (by simp), List.nil_append]
         by_cases hle : k0 ≤ k
         · have hlt : k0 + 1 ≤ k := by omega
           have e : k - k0 = (k - (k0 + 1)) + 1 := by omega
@@ -144,7 +146,7 @@ theorem flatMap_indexed_select {β} (it : Item) (f : Nat → Data → List β) (
           rw [e, List.getElem?_cons_succ]
         · have : ¬ (k0 + 1 ≤ k) := by omega
           simp [hle, this]
-  have := key it.variants 0 hother
+  have := key it.variants 0 (fun j d' hj _ hm => hother j d' hj (by simpa using hm))
   simpa [Item.indexed, hd] using this
 
 /-- A list of per-field expressions, each producing one value and one event. -/
